@@ -154,17 +154,72 @@ class _PackInterp(BufInterp):
         return super().ext_isinstance(v, name, node)
 
 
-def _pack_obj(repo, cname, limit, total):
+def spill_roles(repo, cname):
+    """Names of the attributes in which class `cname` keeps its RAM total and its spill-file counter, found by what _pack
+    does to a freshly constructed object: the RAM total is the number that grows by the payload size when nothing is
+    spilled, the counter the number that grows by one when the payload is spilled."""
+    cache = repo.__dict__.setdefault("_spill_roles", {})
+    if cname in cache:
+        return cache[cname]
+    c = repo.cls(cname)
+    pk = repo.resolve(c, "_pack", "method")
+    roles = {}
+    for role, limit in (("total", None), ("counter", 0)):
+        o = _pack_obj(repo, cname, limit, None, _raw=True)
+        before = {k: v for k, v in o.fields.items() if isinstance(v, int) and not isinstance(v, bool)}
+        od = Order()
+        od.name(0, "zero", 0)
+        od.name(Sym("size"), "size", 2)
+        it = _PackInterp(repo, od, "plain")
+        try:
+            it.run(pk, [Sym("payload")], self_obj=o)
+        except (Raised, Undecided, AnalysisError) as exc:
+            raise AnalysisError(f"{cname}._pack outside vocabulary while looking for its accounting attributes: {exc}") from exc
+        changed = [k for k, v in before.items() if o.fields.get(k) != v]
+        if role == "total":
+            changed = [k for k in changed if not isinstance(o.fields[k], int)]
+        else:
+            changed = [k for k in changed if o.fields[k] == before[k] + 1]
+        if len(changed) != 1:
+            if role == "counter" and not changed:
+                roles[role] = None  # no number counts the spills (the file-name rules decide whether names stay unique)
+                continue
+            raise AnalysisError(f"cannot identify the {role} attribute of {cname} (candidates {changed})")
+        roles[role] = changed[0]
+    cache[cname] = roles
+    return roles
+
+
+def _pack_obj(repo, cname, limit, total, _raw=False):
+    """A spilling slot as the real code leaves it after construction, with memory limit and location set through the public
+    properties; the RAM total (where a scenario prescribes one) is put into the attribute the class really uses."""
     from ..absbase import FinamInterp, seed_from_init
     c = repo.cls(cname)
     o = Obj(cls=c, label=cname)
-    seed_from_init(FinamInterp(repo), c, o, {"name": cname, "info": None, "static": False})
-    o.fields.update(_mem_limit=limit, _mem_location=Sym("location"), _total_mem=total, _mem_counter=Sym("counter0"),
-                    logger=Logger(label="logger"), name=cname, data=[],
+    it = FinamInterp(repo)
+    seed_from_init(it, c, o, {"name": cname, "info": None, "static": False})
+    o.fields.update(logger=Logger(label="logger"), name=cname, data=[],
                     _output_info=Obj(label="out_info", fields={"units": Sym("u_out")}),
-                    _input_info=Obj(label="in_info", fields={"units": Sym("u_in")}),
-                    _out_infos_exchanged=0, _connected_inputs={}, _targets=[])
+                    _input_info=Obj(label="in_info", fields={"units": Sym("u_in")}))
+    it.store_attr(o, "memory_limit", limit, None)
+    it.store_attr(o, "memory_location", Sym("location"), None)
+    if not _raw:
+        roles = spill_roles(repo, cname)
+        if total is not None:
+            o.fields[roles["total"]] = total
+        if roles["counter"] is not None:
+            o.fields[roles["counter"]] = Sym("counter0")
     return o
+
+
+def _total(repo, o):
+    return o.fields[spill_roles(repo, o.cls.name)["total"]]
+
+
+def _set_counter(repo, o, v):
+    k = spill_roles(repo, o.cls.name)["counter"]
+    if k is not None:
+        o.fields[k] = v
 
 
 def _packers(repo):
@@ -323,12 +378,12 @@ def r25s_pack(repo, sink):
             if want == "ram":
                 if spilled or ret != Sym("payload"):
                     worst = worst or f"{name}: data is dumped to disk although it fits"
-                elif not same_value(o.fields["_total_mem"], need):
-                    worst = worst or f"{name}: RAM counter becomes {o.fields['_total_mem']!r}, must grow by the payload size"
+                elif not same_value(_total(repo, o), need):
+                    worst = worst or f"{name}: RAM counter becomes {_total(repo, o)!r}, must grow by the payload size"
             else:
                 if not spilled or ret == Sym("payload"):
                     worst = worst or f"{name}: data stays in RAM although the limit is exceeded"
-                elif not same_value(o.fields["_total_mem"], tot):
+                elif not same_value(_total(repo, o), tot):
                     worst = worst or f"{name}: a dumped payload is also accounted as RAM"
         sink.check(worst is None, "R25", f"threshold:{pk.qualname}", pk,
                    ok="spill iff a limit is set and the RAM total plus the new payload exceeds it; RAM accounting exclusive", bad=worst or "")
@@ -340,7 +395,7 @@ def r25s_pack(repo, sink):
         for kind in ("plain", "masked", "masked-empty"):
             it = _PackInterp(repo, od, kind)
             o = _pack_obj(repo, c.name, 0, 0)
-            o.fields["_mem_counter"] = 0
+            _set_counter(repo, o, 0)
             names = []
             try:
                 for _ in range(3):
@@ -361,8 +416,8 @@ def r25s_pack(repo, sink):
         _names_after_eviction(repo, sink, c, pk, od)
         # location fallback: None location -> current directory, still a join
         o2 = _pack_obj(repo, c.name, 0, 0)
-        o2.fields["_mem_location"] = None
-        o2.fields["_mem_counter"] = 0
+        FinamInterp(repo).store_attr(o2, "memory_location", None, None)
+        _set_counter(repo, o2, 0)
         it2 = _PackInterp(repo, od, "plain")
         it2.run(pk, [Sym("payload")], self_obj=o2)
         sink.check(len(it2.joins) == 1 and it2.joins[0][0] in ("", None), "R25", f"filename-no-location:{pk.qualname}", pk,
@@ -390,7 +445,7 @@ def _names_after_eviction(repo, sink, c, pk, od):
     od2.name(q, "q", 4)
     it = _PackInterp(repo, od2, "plain")
     o = _pack_obj(repo, c.name, 0, 0)
-    o.fields["_mem_counter"] = 0
+    _set_counter(repo, o, 0)
     tgt = Obj(label="A")
     o.fields["_connected_inputs"] = {tgt: None}
     try:
